@@ -9,8 +9,23 @@ static LIVE: AtomicU64 = AtomicU64::new(0);
 static PEAK: AtomicU64 = AtomicU64::new(0);
 static LARGEST: AtomicU64 = AtomicU64::new(0);
 static REQUESTS: AtomicU64 = AtomicU64::new(0);
+/// monotonic count of observable steps (allocator calls, reads / seeks / writes on the harness's
+/// sources and sinks): the progress monitor's notion of "something happened"
+pub static EVENTS: AtomicU64 = AtomicU64::new(0);
+
+thread_local! {
+    /// set on the monitor's own thread: its sampling is not a step of the case
+    pub static IS_MONITOR: std::cell::Cell<bool> = const { std::cell::Cell::new(false) };
+}
+
+pub fn tick() {
+    if !IS_MONITOR.try_with(std::cell::Cell::get).unwrap_or(true) {
+        EVENTS.fetch_add(1, Relaxed);
+    }
+}
 
 fn on_alloc(size: u64) {
+    tick();
     REQUESTS.fetch_add(1, Relaxed);
     let live = LIVE.fetch_add(size, Relaxed) + size;
     PEAK.fetch_max(live, Relaxed);
@@ -34,6 +49,7 @@ unsafe impl GlobalAlloc for Counting {
     }
     unsafe fn dealloc(&self, p: *mut u8, l: Layout) {
         unsafe { System.dealloc(p, l) };
+        tick();
         LIVE.fetch_sub(l.size() as u64, Relaxed);
     }
     unsafe fn realloc(&self, p: *mut u8, l: Layout, new: usize) -> *mut u8 {
